@@ -20,3 +20,7 @@ def run(project, rep):
     from .. import rules_wire as W
     rep.rule("K-R5", "the date asked with is the date held: DTPROFUP is written by format_datetime as date.mmm[offset] with the milliseconds zero-padded on the left (L-R3)")
     rep.run(W.l_r3_datetime, project, rep)
+    from .. import rules_dates as Z
+    rep.rule("K-R6", "the date held is the date read from the cached profile: offset plumbing of the DateTime reader (Z-R4) and sign of the offset minutes (Z-R5) - a held date read an hour off lets an older profile pass the not-older test")
+    rep.run(Z.z_r4_conversion, project, rep)
+    rep.run(Z.z_r5_offset_sign, project, rep)
